@@ -273,15 +273,19 @@ def judge_model(ctx, vec, rng, kind, variant):
     vals = [smooth_vals(rng, nat, 3e-26), smooth_vals(rng, g2, 2e-26)]
     cls0 = bin_class(vec)
     v = dict(vec, kind='model', model=kind, variant=variant, vals=vals)
+    cls = 'model:%s:%s' % (kind, variant)
     try:
         m = build_model(kind, grids, vals)
         gf, sf, _, _ = m.model()
-        gc, sc, _, _ = m.model(wngrid=oc)
-        gu, su, _, _ = m.model(wngrid=oc, cutoff_grid=False)
+        try:
+            gc, sc, _, _ = m.model(wngrid=oc)
+            gu, su, _, _ = m.model(wngrid=oc, cutoff_grid=False)
+        except Exception as e:
+            ctx.verdict('pointwise_independent', False, cls=cls, detail='the restricted computation raised %r (full one succeeded)' % (e,), vector=v)
+            return
     finally:
         OpacityCache().clear_cache()
     gf, sf, gc, sc = np.asarray(gf), np.asarray(sf), np.asarray(gc), np.asarray(sc)
-    cls = 'model:%s:%s' % (kind, variant)
     ctx.verdict('native_grid_is_longest', np.array_equal(gf, np.array(nat)), cls=cls,
                 detail='full grid has %d points, longest molecule grid %d' % (len(gf), len(nat)), vector=v)
     ctx.verdict('pointwise_independent', np.array_equal(np.asarray(gu), gf) and np.array_equal(np.asarray(su), sf),
@@ -348,9 +352,28 @@ def rgrid(rng, npts, start, res):
     return g
 
 
-def trace_events(rng, n):
+def measure(nat, oc, ow2, f, S, eid):
+    """One real run of clip + binner on the full and on the clipped grid -> trace event (None if not loggable)."""
     from taurex.util.util import clip_native_to_wngrid
     from taurex.binning import FluxBinner
+    natf, ocf = np.array(nat, dtype=float), np.array(oc, dtype=float)
+    clip = clip_native_to_wngrid(natf, ocf)
+    if len(clip) < 2:
+        return None
+    lo = int(np.where(natf == clip[0])[0][0]) + 1
+    hi = int(np.where(natf == clip[-1])[0][0]) + 1
+    contiguous = (hi - lo + 1 == len(clip)) and np.array_equal(natf[lo - 1:hi], clip)
+    binner = FluxBinner(wngrid=ocf, wngrid_width=np.array(ow2, dtype=float) / 2.0)
+    spec = np.array(f, dtype=float)
+    bf = np.asarray(binner.bindown(natf, spec)[1])
+    bc = np.asarray(binner.bindown(clip, spec[lo - 1:hi])[1])
+    if not (np.all(np.isfinite(bf)) and np.all(np.isfinite(bc))):
+        return None                                        # a bin touching the native range in a point: 0/0, measure zero
+    return dict(id=eid, ev='clipbin', nat=nat, oc=oc, ow2=ow2, lo=lo if contiguous else -1, hi=hi,
+                f=f, S=S, bf=[int(round(x * S)) for x in bf], bc=[int(round(x * S)) for x in bc], tol=1)
+
+
+def trace_events(rng, n):
     events = []
     S = 1000
     while len(events) < n:
@@ -378,27 +401,17 @@ def trace_events(rng, n):
         W2 = max(mid2)
         ow2 = list(mid2) if rng.random() < 0.5 else [rng.randint(max(1, W2 // 3), W2) for _ in oc]
         f = [rng.randint(0, 100) for _ in nat]
-        natf, ocf = np.array(nat, dtype=float), np.array(oc, dtype=float)
-        clip = clip_native_to_wngrid(natf, ocf)
-        if len(clip) < 2:
-            continue
-        lo = int(np.where(natf == clip[0])[0][0]) + 1
-        hi = int(np.where(natf == clip[-1])[0][0]) + 1
-        contiguous = (hi - lo + 1 == len(clip)) and np.array_equal(natf[lo - 1:hi], clip)
-        binner = FluxBinner(wngrid=ocf, wngrid_width=np.array(ow2, dtype=float) / 2.0)
-        spec = np.array(f, dtype=float)
-        bf = np.asarray(binner.bindown(natf, spec)[1])
-        bc = np.asarray(binner.bindown(clip, spec[lo - 1:hi])[1])
-        if not (np.all(np.isfinite(bf)) and np.all(np.isfinite(bc))):
-            continue                                       # a bin touching the native range in a point: 0/0, measure zero
-        events.append(dict(id=len(events), ev='clipbin', nat=nat, oc=oc, ow2=ow2, lo=lo if contiguous else -1, hi=hi,
-                           f=f, S=S, bf=[int(round(x * S)) for x in bf], bc=[int(round(x * S)) for x in bc], tol=1))
+        e = measure(nat, oc, ow2, f, S, len(events))
+        if e is not None:
+            events.append(e)
     return events
 
 
-def run_traces(ctx, n):
+def run_traces(ctx, n, events=None):
     rng = random.Random(ctx.seed * 7919 + 13)
-    events = trace_events(rng, n)
+    replaying = events is not None
+    if events is None:
+        events = trace_events(rng, n)
     accepted, bad, res = validate_trace('Trace_Grid', 'Trace_Grid.cfg', events, timeout=900)
     ctx.add_tlc('trace-clipbin', res, counts=False)
     if res.postcondition_false and not bad:
@@ -422,6 +435,8 @@ def run_traces(ctx, n):
             ctx.verdict('binning_commutes', 'commutes' not in why, cls='trace:' + c,
                         detail='binned(clipped) %r != binned(full) %r (x%d)' % (e['bc'], e['bf'], e['S']), vector=slim)
     ctx.note('trace events by class: %r' % (count,))
+    if replaying:
+        return
     ctx.add_sample(dict(trace_event={k: (v if not isinstance(v, list) or len(v) < 12 else v[:12] + ['...']) for k, v in events[0].items()}))
     # canary: corrupt one binned value of an accepted event
     good = [e for e in events if e['id'] not in badids and classes[e['id']] in ('uniform', 'third')]
@@ -528,6 +543,9 @@ def run(ctx):
 
 def replay(ctx, violations):
     rng = random.Random(1)
+    tr = []
+    if not any(f.get('id') == KNOWN_C13B['id'] for f in ctx.findings):
+        ctx.findings.append(KNOWN_C13B)
     for v in violations:
         vec = v['vector']
         kind = vec.get('kind')
@@ -537,5 +555,11 @@ def replay(ctx, violations):
             judge_bin(ctx, vec, rng, {'outside': 0, 'outside_diff': 0, 'band_diff': 0})
         elif kind == 'model':
             judge_model(ctx, vec, rng, vec['model'], vec['variant'])
-        else:
-            raise Machinery('trace violations are re-run with the same VERIF_SEED (./check C13 %s)' % ctx.tier)
+        elif kind == 'trace':
+            e = measure(vec['nat'], vec['oc'], vec['ow2'], vec['f'], 1000, len(tr))
+            if e is None:
+                ctx.verdict('trace_clip_and_binner_conform', False, cls='trace:replay', detail='clip has < 2 points or a binned value is not finite', vector=vec)
+            else:
+                tr.append(e)
+    if tr:
+        run_traces(ctx, 0, events=tr)
